@@ -102,16 +102,25 @@ func (s *stateMachine[V, H, A]) processMessage(
 }
 
 func (s *stateMachine[V, H, A]) ProcessTimeout(tm types.Timeout) []actions.Action[V, H, A] {
+	var timeoutActions []actions.Action[V, H, A]
 	switch tm.Step {
 	case types.StepPropose:
-		return s.processLoop(s.onTimeoutPropose(tm), nil)
+		timeoutActions = s.onTimeoutPropose(tm)
 	case types.StepPrevote:
-		return s.processLoop(s.onTimeoutPrevote(tm), nil)
+		timeoutActions = s.onTimeoutPrevote(tm)
 	case types.StepPrecommit:
-		return s.processLoop(s.onTimeoutPrecommit(tm), nil)
+		timeoutActions = s.onTimeoutPrecommit(tm)
 	}
 
-	return nil
+	// A timeout that does not apply any more (other height, round or step) is not written to the
+	// WAL. It must not be an occasion to run the rules either: anything they do now (e.g. take a
+	// commit that an earlier call left pending) would be the effect of an input that a restarted
+	// node does not find in its WAL.
+	if len(timeoutActions) == 0 {
+		return nil
+	}
+
+	return s.processLoop(timeoutActions, nil)
 }
 
 func (s *stateMachine[V, H, A]) ProcessWAL(walEntry wal.Entry[V, H, A]) []actions.Action[V, H, A] {
